@@ -47,13 +47,14 @@ type c19sCase struct {
 	Down    string `json:"downstream"` // ok | error
 	Takes   bool   `json:"downstream_takes_the_data,omitempty"` // the next consumer declares MutatesData and moves the data away
 	Scraper string `json:"scraper"`    // ok | partial | fail
+	Tracing string `json:"tracing,omitempty"`
 }
 
 func c19sRun(c c19sCase) (string, string) {
 	tt := componenttest.NewTelemetry()
 	defer func() { _ = tt.Shutdown(context.Background()) }()
 	typ := component.MustNewType("vv")
-	set := receiver.Settings{ID: component.NewID(typ), TelemetrySettings: tt.NewTelemetrySettings(), BuildInfo: component.NewDefaultBuildInfo()}
+	set := receiver.Settings{ID: component.NewID(typ), TelemetrySettings: c19Tele(tt.NewTelemetrySettings(), c.Tracing), BuildInfo: component.NewDefaultBuildInfo()}
 	var downErr error
 	if c.Down == "error" {
 		downErr = errors.New("refused")
@@ -169,7 +170,8 @@ func TestVerif(t *testing.T) {
 			for _, d := range []string{"ok", "error"} {
 				for _, sc := range []string{"ok", "partial", "fail"} {
 				for _, takes := range []bool{false, true} {
-					c := c19sCase{Signal: s, Items: n, Down: d, Takes: takes, Scraper: sc}
+				for _, tr := range c19TracingModes[:2] { // the scrape context is the controller's own: no remote parent
+					c := c19sCase{Signal: s, Items: n, Down: d, Takes: takes, Scraper: sc, Tracing: tr}
 					ctx.R.Evals++
 					ctx.R.Trans++
 					ctx.Nontrivial(vr.Hash(fmt.Sprint(c)))
@@ -180,6 +182,7 @@ func TestVerif(t *testing.T) {
 						ctx.R.Traces++
 					}
 					ctx.Sample(c)
+				}
 				}
 				}
 			}
